@@ -243,4 +243,50 @@ theorem Link.run_no_receipt_error {l : Link} (ops : List LinkOp) (h : LinkInv l)
       subst he
       exact h.no_receipt_error op hs
 
+def LinkOp.isDiscard : LinkOp → Bool
+  | .discard => true
+  | _ => false
+
+/-- only `discard` (a CANCEL removing a held task) changes the ghost counter -/
+theorem Link.step_dropped {l l' : Link} (op : LinkOp) (hs : l.step op = .ok l')
+    (hd : op.isDiscard = false) : l'.dropped = l.dropped := by
+  cases op with
+  | discard => simp [LinkOp.isDiscard] at hd
+  | send a n =>
+    simp only [Link.step] at hs
+    split at hs
+    · simp at hs
+    · simp only [Except.ok.injEq] at hs; subst hs; rfl
+  | recvDown =>
+    simp only [Link.step] at hs
+    split at hs
+    · simp at hs
+    · simp only [Except.ok.injEq] at hs; subst hs; rfl
+  | emitWaiting n => simp only [Link.step, Except.ok.injEq] at hs; subst hs; rfl
+  | finish =>
+    simp only [Link.step] at hs
+    split at hs
+    · simp at hs
+    · simp only [Except.ok.injEq] at hs; subst hs; rfl
+  | recvUp =>
+    simp only [Link.step] at hs
+    split at hs
+    · simp at hs
+    · simp only [Except.ok.injEq] at hs; subst hs; rfl
+    · split at hs
+      · simp at hs
+      · simp only [Except.ok.injEq] at hs; subst hs; rfl
+
+theorem Link.run_dropped {l l' : Link} (ops : List LinkOp) (hr : l.run ops = .ok l')
+    (hd : ∀ op ∈ ops, op.isDiscard = false) : l'.dropped = l.dropped := by
+  induction ops generalizing l with
+  | nil => simp only [Link.run, Except.ok.injEq] at hr; subst hr; rfl
+  | cons op ops ih =>
+    simp only [Link.run] at hr
+    cases hs : l.step op with
+    | ok l1 =>
+      rw [hs] at hr
+      rw [ih hr (fun o ho => hd o (List.mem_cons_of_mem _ ho)), Link.step_dropped op hs (hd op List.mem_cons_self)]
+    | error e => rw [hs] at hr; simp at hr
+
 end BqVerif.Runtime
